@@ -4,6 +4,7 @@ import (
 	"fmt"
 	"math"
 	"testing"
+	"time"
 
 	"github.com/peterstace/simplefeatures/carto"
 	"github.com/peterstace/simplefeatures/geom"
@@ -341,11 +342,12 @@ func c19Enumerate(cx *h.Ctx, yield func(C19Case)) []string {
 
 func TestC19(t *testing.T) {
 	h.Run(t, h.Prop[C19Case]{
-		ID:          "C19",
-		Rule:        "cases = one of the 9 carto projections with a drawn configuration (centre/origin over the sphere incl. the default and, for the two azimuthal projections, exactly and nearly polar centres, standard parallels in both hemispheres and orders with |p1-p2| >= 5 and |p1+p2| >= 10 degrees, radius 1 / WGS84 mean / WGS84 equatorial / 6371, zoom 0..30) and 4..16 points: the centre/origin itself, points on the standard parallels, graticule points and random points, restricted to the well-conditioned domain (|lat| <= 85, within 60 degrees of arc for azimuthal/orthographic, |n x dlon| < 89 degrees for conics); plus the enumerated graticule (5-degree in quick, 1-degree in thorough) for 5 fixed configurations. Checks: Forward finite; Reverse(Forward(p)) within 1e-9 degrees (a NaN fails); Jacobian by central differences at 1e-4 degrees: equal-area det J = R^2 cos(lat) (Albers, Lambert cylindrical, sinusoidal), conformal J^T J = s^2 diag(cos^2 lat, 1) (Lambert conformal conic, web Mercator), azimuthal |Forward(p)| = R x great-circle angle, meridian scale 1 (equidistant conic, equirectangular), standard parallels true to scale, web Mercator world -> [0,2^zoom]^2, centre, y southward; relative tolerance 1e-6 on Jacobians. non-trivial = non-default centre/origin and a point >= 1 degree away",
-		Assumptions: []string{"math package accuracy", "singular configurations (equal or symmetric standard parallels, cos(p1) = 0) are excluded"},
-		Gen:         c19Gen,
-		Check:       c19Check,
-		Enumerate:   c19Enumerate,
+		ID:              "C19",
+		WholeCheckLimit: 300 * time.Second,
+		Rule:            "cases = one of the 9 carto projections with a drawn configuration (centre/origin over the sphere incl. the default and, for the two azimuthal projections, exactly and nearly polar centres, standard parallels in both hemispheres and orders with |p1-p2| >= 5 and |p1+p2| >= 10 degrees, radius 1 / WGS84 mean / WGS84 equatorial / 6371, zoom 0..30) and 4..16 points: the centre/origin itself, points on the standard parallels, graticule points and random points, restricted to the well-conditioned domain (|lat| <= 85, within 60 degrees of arc for azimuthal/orthographic, |n x dlon| < 89 degrees for conics); plus the enumerated graticule (5-degree in quick, 1-degree in thorough) for 5 fixed configurations. Checks: Forward finite; Reverse(Forward(p)) within 1e-9 degrees (a NaN fails); Jacobian by central differences at 1e-4 degrees: equal-area det J = R^2 cos(lat) (Albers, Lambert cylindrical, sinusoidal), conformal J^T J = s^2 diag(cos^2 lat, 1) (Lambert conformal conic, web Mercator), azimuthal |Forward(p)| = R x great-circle angle, meridian scale 1 (equidistant conic, equirectangular), standard parallels true to scale, web Mercator world -> [0,2^zoom]^2, centre, y southward; relative tolerance 1e-6 on Jacobians. non-trivial = non-default centre/origin and a point >= 1 degree away",
+		Assumptions:     []string{"math package accuracy", "singular configurations (equal or symmetric standard parallels, cos(p1) = 0) are excluded"},
+		Gen:             c19Gen,
+		Check:           c19Check,
+		Enumerate:       c19Enumerate,
 	})
 }
